@@ -332,3 +332,41 @@ func VerifGenResolveTwice() {
 	vrtObserve("model", m)
 	vrtAssert("second-resolution-changes-nothing#"+cls, vrtDeepEqual(any(m), any(again)))
 }
+
+// C05 (and C04): "the extending service's own attributes applied on top by the override rules" - a service that
+// extends `s` and sets the attribute itself (to the next example) equals the service obtained by merging a file
+// that defines it like `s` with a file that sets the attribute: extends and file merge use the same rules.
+// Registered with PAIR=1 (genSecond is the own value).
+func VerifGenExtendsOwn() {
+	site, attr, doc := genBase()
+	vrtAssume(site.section == "services" && attr != "extends" && genSecond != nil)
+	cls := attr
+	child := map[string]string{"s": "t", "s.x": "t.y", "nx-s": "nx-t"}[genSvc]
+	base := doc["services"].(map[string]any)[genSvc].(map[string]any)
+	// A: two files merged
+	f1 := genDocCopy(doc)
+	delete(f1["services"].(map[string]any), "a2")
+	f1["services"].(map[string]any)[child] = genCopy(base)
+	f2 := map[string]any{"services": map[string]any{child: map[string]any{attr: genCopy(genSecond)}}}
+	pa, ea := tcLoadProject(types.Mapping{}, nil, f1, f2)
+	vrtObserve("err", ea != nil)
+	if ea != nil {
+		vrtObserve("msgA", ea.Error())
+	}
+	vrtAssume(ea == nil)
+	// B: one file, extends
+	b := genDocCopy(doc)
+	delete(b["services"].(map[string]any), "a2")
+	b["services"].(map[string]any)[child] = map[string]any{"extends": map[string]any{"service": genSvc}, attr: genCopy(genSecond)}
+	pb, eb := tcLoadProject(types.Mapping{}, nil, b)
+	if eb != nil {
+		vrtObserve("msg", eb.Error())
+	}
+	vrtAssert("extending-with-own-value-loads#"+cls, eb == nil)
+	if eb != nil {
+		return
+	}
+	got, want := pb.Services[child], pa.Services[child]
+	vrtObserve("got", got)
+	vrtAssert("own-value-applied-by-the-override-rules#"+cls, vrtDeepEqual(any(got), any(want)))
+}
